@@ -176,16 +176,22 @@ type shResult struct {
 	ret []shVal
 }
 
+type shFrame struct {
+	params map[*ssa.Parameter]shVal
+	k      func(h *shHeap, rets []shVal)
+	depth  int
+}
+
 type shInterp struct {
+	inModule func(*ssa.Function) bool
 	fn      *ssa.Function
 	root    shSym
-	params  map[*ssa.Parameter]shVal
 	und     string
 	results []shResult
 	steps   int
 }
 
-func (it *shInterp) run(h *shHeap, b *ssa.BasicBlock, idx int, env map[ssa.Value]shVal, prev *ssa.BasicBlock) {
+func (it *shInterp) run(h *shHeap, b *ssa.BasicBlock, idx int, env map[ssa.Value]shVal, prev *ssa.BasicBlock, fr *shFrame) {
 	if it.und != "" {
 		return
 	}
@@ -197,7 +203,7 @@ func (it *shInterp) run(h *shHeap, b *ssa.BasicBlock, idx int, env map[ssa.Value
 	val := func(v ssa.Value) (shVal, bool) {
 		switch x := v.(type) {
 		case *ssa.Parameter:
-			r, ok := it.params[x]
+			r, ok := fr.params[x]
 			return r, ok
 		case *ssa.Const:
 			if x.Value == nil {
@@ -299,7 +305,7 @@ func (it *shInterp) run(h *shHeap, b *ssa.BasicBlock, idx int, env map[ssa.Value
 							for k, v := range env {
 								e2[k] = v
 							}
-							it.run(c, b, i, e2, prev)
+							it.run(c, b, i, e2, prev, fr)
 						}
 						return
 					}
@@ -397,10 +403,10 @@ func (it *shInterp) run(h *shHeap, b *ssa.BasicBlock, idx int, env map[ssa.Value
 			if cv.b {
 				nb = b.Succs[0]
 			}
-			it.run(h, nb, 0, env, b)
+			it.run(h, nb, 0, env, b, fr)
 			return
 		case *ssa.Jump:
-			it.run(h, b.Succs[0], 0, env, b)
+			it.run(h, b.Succs[0], 0, env, b, fr)
 			return
 		case *ssa.Return:
 			var rv []shVal
@@ -411,7 +417,39 @@ func (it *shInterp) run(h *shHeap, b *ssa.BasicBlock, idx int, env map[ssa.Value
 				}
 				rv = append(rv, v)
 			}
-			it.results = append(it.results, shResult{h, rv})
+			fr.k(h, rv)
+			return
+		case *ssa.Call:
+			callee := path.StaticCallee(x)
+			if callee == nil || len(callee.Blocks) == 0 || fr.depth >= 4 || !it.inModule(callee) {
+				it.und = "call outside the interpreted subset"
+				return
+			}
+			nf := &shFrame{params: map[*ssa.Parameter]shVal{}, depth: fr.depth + 1}
+			for ai, prm := range callee.Params {
+				if ai < len(x.Call.Args) {
+					if av, ok := val(x.Call.Args[ai]); ok {
+						nf.params[prm] = av
+					} else {
+						nf.params[prm] = shVal{kind: "other"}
+					}
+				}
+			}
+			cont := i + 1
+			callV := x
+			nf.k = func(h2 *shHeap, rets []shVal) {
+				e2 := map[ssa.Value]shVal{}
+				for k, v := range env {
+					e2[k] = v
+				}
+				if len(rets) == 1 {
+					e2[callV] = rets[0]
+				} else {
+					e2[callV] = shVal{kind: "other"}
+				}
+				it.run(h2, b, cont, e2, prev, fr)
+			}
+			it.run(h, callee.Blocks[0], 0, map[ssa.Value]shVal{}, nil, nf)
 			return
 		default:
 			it.und = fmt.Sprintf("instruction %T outside the interpreted subset", in)
@@ -519,17 +557,19 @@ func init() {
 					syms[i] = group[g]
 				}
 				for _, h := range setup(h0, syms) {
-					it := &shInterp{fn: fn, root: syms[0], params: map[*ssa.Parameter]shVal{}}
-					it.params[fn.Params[0]] = shVal{kind: "other"}
+					it := &shInterp{fn: fn, root: syms[0], inModule: p.InModule}
+					fr := &shFrame{params: map[*ssa.Parameter]shVal{}}
+					fr.k = func(h2 *shHeap, rets []shVal) { it.results = append(it.results, shResult{h2, rets}) }
+					fr.params[fn.Params[0]] = shVal{kind: "other"}
 					for i, pi := range nodeParams {
-						it.params[fn.Params[pi]] = shVal{kind: "ptr", sym: syms[i+1]}
+						fr.params[fn.Params[pi]] = shVal{kind: "ptr", sym: syms[i+1]}
 					}
 					for i, prm := range fn.Params {
-						if _, ok := it.params[prm]; !ok && i > 0 {
-							it.params[prm] = shVal{kind: "other"}
+						if _, ok := fr.params[prm]; !ok && i > 0 {
+							fr.params[prm] = shVal{kind: "other"}
 						}
 					}
-					it.run(h, fn.Blocks[0], 0, map[ssa.Value]shVal{}, nil)
+					it.run(h, fn.Blocks[0], 0, map[ssa.Value]shVal{}, nil, fr)
 					if it.und != "" {
 						c.und("SH1", fname, "interpretable form", c.fpos(fn), "the primitive left the subset the local shape rule interprets ("+it.und+")")
 						return
@@ -655,8 +695,10 @@ func init() {
 		// ---- newLRUList: the sentinel points at itself both ways
 		if newList != nil {
 			h := newShHeap()
-			it := &shInterp{fn: newList, params: map[*ssa.Parameter]shVal{}}
-			it.run(h, newList.Blocks[0], 0, map[ssa.Value]shVal{}, nil)
+			it := &shInterp{fn: newList, inModule: p.InModule}
+			fr := &shFrame{params: map[*ssa.Parameter]shVal{}}
+			fr.k = func(h2 *shHeap, rets []shVal) { it.results = append(it.results, shResult{h2, rets}) }
+			it.run(h, newList.Blocks[0], 0, map[ssa.Value]shVal{}, nil, fr)
 			fname := p.FuncName(newList)
 			if it.und != "" || len(it.results) != 1 {
 				c.und("SH1", fname, "interpretable form", c.fpos(newList), "the constructor left the subset the local shape rule interprets ("+it.und+")")
